@@ -100,9 +100,10 @@ struct Info {
     va_end(ap);
     if (message.empty()) message = buf;
   }
+  void rs(const std::string &s) { if (want_render && render.size() < 20000) render += s; }
   void r(const char *fmt, ...) __attribute__((format(printf, 2, 3))) {
     if (!want_render) return;
-    if (render.size() > 6000) return;
+    if (render.size() > 20000) return;
     char buf[1024];
     va_list ap;
     va_start(ap, fmt);
